@@ -4,6 +4,12 @@ NOTES = ("All checks: bin/check <ID> --tier quick|thorough. Exit 0 held / 1 VIOL
          "Specification in spec/, harness in harness/, known findings in known_findings.jsonl; see DESIGN.md.")
 NOT_APPLICABLE = {}
 CHECKS = {
+    "C07": {
+        "level": "model_checking",
+        "technique": "TLA+ Decimal spec (exact rationals; printing by long division to 10 fractional digits with the admissible neighbours at and near ties; no exponent/trailing zeros/+/-0; compressed leading zero) enumerated by TLC (MC_Numbers: quotient lattice, literal spellings and short decimal arithmetic, tolerance comparisons, modulo sign table, division by zero, truths of the math functions); plus trace validation (Trace_Numbers): for seeded literals and + - * / of literals the harness supplies the exact expansion of the IEEE double and TLC checks that grass printed exactly its correctly rounded 10-digit text",
+        "text": "Decides the decimal-exact fragment of the property: every quotient of the integer lattice prints as its correctly rounded decimal; literals incl. exponent forms; fuzzy ==, <, <=, >, >= and integer checks at 1e-12 (equal) and 2e-11 (different); % takes the sign of the divisor; Infinity/NaN spellings; 25 identities of pow/sqrt/trig/log; and, for thousands of doubles per run, digit-exact printing of the double itself in both styles.",
+        "note": "Not decided by this technique: that chains of operations equal IEEE double arithmetic beyond one operation on literals, and the last-digit accuracy of transcendental functions (TLC has no reals). Trace_Numbers trusts the harness's IEEE doubles (Python floats) for the value of an expression.",
+    },
     "C08": {
         "level": "model_checking",
         "technique": "TLA+ Units spec (unit classes and CSS ratios as exact rationals, pi exponent for rad; TLC checks round-trip, transitivity and class/ratio coherence of the table) + Rational; TLC enumerates every operation x ordered unit pair/triple (MC_Units) with the exact expected value, unit, boolean or error; grass evaluates each expression; results compared with the exact rational",
